@@ -241,6 +241,9 @@ def op_strategy(spec, max_ops, routes=None):
     return st.lists(single_op(spec), min_size=2, max_size=max_ops)
 
 
+CMDLINE_KINDS = ("str", "ipv4", "ipv4net", "host", "url", "filename", "loglevel", "appmode", "secure", "include", "int", "port", "float", "bool", "featureflag")
+
+
 def single_op(spec):
     """One operation on a configuration of ``spec``."""
     leaves = spec_leaves(spec)
@@ -268,8 +271,17 @@ def single_op(spec):
         ops.append(pc.flatmap(lambda i: D({"op": J("assign_sub"), "cont": J(i), "how": st.sampled_from(["dict", "dict", "config", "junk"]),
                                            "tree": subtree(conts[i][1]), "junk": specs.junk()})))
     if leaves:
-        cl = st.lists(st.integers(0, len(leaves) - 1).flatmap(lambda i: st.tuples(J(i), value_for(leaves[i][1]))), max_size=3)
-        ops.append(D({"op": J("cmdline"), "args": cl, "ignore": st.one_of(st.none(), st.integers(0, len(leaves) - 1))}))
+        # options exist for scalar fields reachable through plain nested schemas: choose among those (nested ones
+        # first when there are any), mostly a non-empty command line
+        plain = {()} | {p for p, n in conts if all(dict(conts).get(p[:k], {}).get("kind") == "schema" for k in range(1, len(p) + 1))}
+        opt = [i for i, (p, n) in enumerate(leaves) if n["kind"] in CMDLINE_KINDS and p[:-1] in plain]
+        nested = [i for i in opt if len(leaves[i][0]) > 1]
+        pool = st.sampled_from(opt) if opt else st.integers(0, len(leaves) - 1)
+        if nested:
+            pool = st.one_of(st.sampled_from(nested), pool)
+        one = pool.flatmap(lambda i: st.tuples(J(i), value_for(leaves[i][1])))
+        cl = st.integers(0, 7).flatmap(lambda k: J([]) if k == 0 else st.lists(one, min_size=1, max_size=min(k, 3)))
+        ops.append(D({"op": J("cmdline"), "args": cl, "ignore": st.one_of(st.none(), st.none(), st.integers(0, len(leaves) - 1))}))
     if ro:
         ops.append(D({"op": J("set_readonly"), "ro": st.integers(0, len(ro) - 1), "value": specs.junk()}))
     if typed_lists:
